@@ -73,6 +73,10 @@ def run_case(ctx, mr, case):
         line = 'dpfsread %s %x %s %s %s %s %s ' % (hx(img[o1:o1 + 2 * s1]), ip['dpfs_selector'], hx(img[o2:o2 + 2 * s2]), zhex(ip['dpfs_block_sizes'][1]),
                                                  hx(img[o3:o3 + 2 * s3]), zhex(s3), zhex(ip['dpfs_block_sizes'][2])) + \
                ' '.join('%s,%s' % (zhex(p_), zhex(n_)) for p_, n_ in reads)
+        if s3 > 0x6000:
+            # the extracted model works on lists: level files beyond a few thousand bytes are left to the oracle above
+            ctx.stat('dpfs_model_skipped_large')
+            continue
         out = mr.ask(line).split(' ')
         if out != impl:
             k = next((i for i, (a, b) in enumerate(zip(out, impl)) if a != b), 0)
